@@ -131,7 +131,10 @@ fn main() {
                     worker = spawn(args[2].clone());
                     Ok(("worker-died".to_string(), vec!["abort: the worker thread died".to_string()]))
                 } else {
-                    match worker.1.recv_timeout(watchdog) {
+                    // giant cases (`G ...`: multi-GiB views, ~10 s on an idle machine) get a quarter of an hour: under
+                    // load they were reported as hangs (a false alarm seen when four mutation runs shared the machine)
+                    let limit = if line.starts_with("G ") { watchdog.max(std::time::Duration::from_secs(900)) } else { watchdog };
+                    match worker.1.recv_timeout(limit) {
                         Ok(r) => r,
                         Err(std::sync::mpsc::RecvTimeoutError::Timeout) => {
                             hangs += 1;
